@@ -21,6 +21,8 @@ enum Op {
     RemoveEdge(usize, usize),
     SetState(usize, i32),
     SetWeight(usize, usize, i32),
+    /// set the weight to the next representable float above the current one
+    NudgeWeight(usize, usize),
     Snapshot,
 }
 
@@ -105,6 +107,17 @@ impl H {
                 self.real.set_weight(&o, &d, wf);
                 if let Some(x) = self.model.edges.get_mut(&(o, d)) {
                     *x = fb(wf);
+                }
+            }
+            Op::NudgeWeight(a, b) => {
+                let (o, d) = (self.id(*a), self.id(*b));
+                if let Some(x) = self.model.edges.get_mut(&(o, d)) {
+                    let cur = fl(*x);
+                    let next = f32::from_bits(if cur >= 0.0 { cur.to_bits() + 1 } else { cur.to_bits() - 1 });
+                    self.real.set_weight(&o, &d, next);
+                    *x = fb(next);
+                } else {
+                    self.real.set_weight(&o, &d, 1.0);
                 }
             }
             Op::Snapshot => {
@@ -193,6 +206,9 @@ fn op_alphabet(nslots: usize) -> Vec<Op> {
             v.push(Op::AddEdge(a, b, 1));
             v.push(Op::RemoveEdge(a, b));
             v.push(Op::SetWeight(a, b, 5));
+            if a <= 1 && b <= 1 {
+                v.push(Op::NudgeWeight(a, b));
+            }
         }
     }
     v
@@ -281,9 +297,21 @@ fn instr_part(ctx: &mut Ctx) {
         let mut st = PushState::new();
         let mut issued: Vec<i32> = vec![];
         let len = 20 + r.below(40);
+        // one sequence in 12 first fills the graph stack to (beyond) its capacity of 100
+        let prefill = if j % 12 == 11 { 97 + r.below(8) } else { 0 };
+        for pf in 0..prefill {
+            st.exec_stack.push(pushr::push::item::Item::instruction(if pf == 0 { "GRAPH.ADD".to_string() } else { "GRAPH.DUP".to_string() }));
+            if pf == 1 {
+                st.int_stack.push(1);
+                st.exec_stack.push(pushr::push::item::Item::instruction("GRAPH.NODE*ADD".to_string()));
+            }
+            while st.exec_stack.size() > 0 {
+                pushr::push::interpreter::PushInterpreter::step(&mut st, &mut is, &cache);
+            }
+        }
         for step in 0..len {
             // steer: graphs and nodes first, queries later
-            let name = if step < 2 {
+            let name = if step < 2 && prefill == 0 {
                 "GRAPH.ADD"
             } else if step < 8 && r.chance(2, 3) {
                 *r.pick(&["GRAPH.NODE*ADD", "GRAPH.NODE*ADD", "GRAPH.EDGE*ADD", "GRAPH.DUP"])
@@ -291,7 +319,8 @@ fn instr_part(ctx: &mut Ctx) {
                 *r.pick(&GRAPH_INSTR)
             };
             // operands (documented order), with hostile variants
-            let depth_opts = [-1, 0, 0, 1, 1, 2, 3, st.graph_stack.size() as i32, i32::MAX];
+            let gs = st.graph_stack.size() as i32;
+            let depth_opts = [-1, 0, 0, 1, 1, 2, 3, gs, gs - 1, gs / 2, i32::MAX];
             match name {
                 "GRAPH.NODE*ADD" => st.int_stack.push(if r.bool() { r.range(0, 3) as i32 } else { gen::int(&mut r, Vals::Mixed) }),
                 "GRAPH.NODE*GETSTATE" => {
@@ -352,7 +381,7 @@ fn instr_part(ctx: &mut Ctx) {
             let ev = judged_step("C18", name, &mut st, &mut is, &cache, &mut ctx.rec, judge, &format!("sequence {} step {}", j, step));
             ctx.rec.count("instr_steps", 1);
             ctx.rec.set_add("instructions", name);
-            ctx.rec.cover(&format!("{}|g{}|n{}|fired{:?}", name, ev.pre.g.len().min(4), ev.pre.g.get(0).map(|g| g.nodes.len().min(4)).unwrap_or(9), ev.fired));
+            ctx.rec.cover(&format!("{}|g{}|n{}|fired{:?}", name, if ev.pre.g.len() >= 99 { 99 } else { ev.pre.g.len().min(4) }, ev.pre.g.get(0).map(|g| g.nodes.len().min(4)).unwrap_or(9), ev.fired));
             let post = match &ev.post {
                 Some(p) => p,
                 None => break,
